@@ -264,7 +264,10 @@ fn install_clock(ctx: &Rc<Ctx>, fuel: u64, preempts: &[u64], site_preempts: &[(u
     // In multi-threaded runs the callback runs at every tick, so that a thread
     // which lost the baton while blocked on a lock of the code under test
     // parks again within one tick of waking up.
-    let first = if multi { 1 } else { pre.front().copied().unwrap_or(u64::MAX).min(fuel) };
+    // (in single-threaded runs at least every 2^12 steps, as a sign of life
+    // for the stall watchdog)
+    const LIFE: u64 = 1 << 12;
+    let first = if multi { 1 } else { pre.front().copied().unwrap_or(u64::MAX).min(fuel).min(LIFE) };
     // per site: the sorted occurrence counts at which to yield
     let mut by_site: Vec<VecDeque<u64>> = vec![VecDeque::new(); NUM_SITES];
     for &(site, n) in site_preempts {
@@ -286,6 +289,7 @@ fn install_clock(ctx: &Rc<Ctx>, fuel: u64, preempts: &[u64], site_preempts: &[(u
     verif_hooks::install(
         first,
         Box::new(move |t, site| {
+            crate::sched::PROGRESS.fetch_add(1, std::sync::atomic::Ordering::Relaxed);
             if t >= fuel {
                 if std::thread::panicking() {
                     return u64::MAX;
@@ -319,7 +323,7 @@ fn install_clock(ctx: &Rc<Ctx>, fuel: u64, preempts: &[u64], site_preempts: &[(u
             if multi {
                 t + 1
             } else {
-                pre.front().copied().unwrap_or(u64::MAX).min(fuel)
+                pre.front().copied().unwrap_or(u64::MAX).min(fuel).min(t + LIFE)
             }
         }),
     );
